@@ -143,3 +143,233 @@ def gen_sexa_grid(n, degs, offs):
                         except Exception as ex:
                             st, ok, F = "raised " + type(ex).__name__, 0, [ZF, ZF, ZF]
                         yield {"k": "str", "x": val, "vs": vs, "v": fv, "ra": 0, "fancy": fancy, "nd": n, "ok": ok, "F": F, "raw": st}
+
+
+# ---------------------------------------------------------------------------
+# C03
+# ---------------------------------------------------------------------------
+PI50 = Fraction("3.14159265358979323846264338327950288419716939937510")
+
+
+def _oc(ex):
+    n = type(ex).__name__
+    return n if n in ("TypeError", "ValueError", "ZeroDivisionError") else "other:" + n
+
+
+def _sg(x):
+    return (x > 0) - (x < 0)
+
+
+def _state(a):
+    return (repr(a._deg), repr(a._tol))
+
+
+def _float_inputs(rng, n):
+    out = []
+    specials = [0.0, 360.0, -360.0, 720.0, -720.0, 180.0, 359.99999999999994, 5e-324, -5e-324, 1e-300, -1e-300,
+                1e15, -1e15, 360.0 * 2**40, -360.0 * 12345678901.0, 1080.0, 3600000.0]
+    for s in specials:
+        for k in (0, 1, -1):
+            out.append(_nudge(s, k))
+    while len(out) < n:
+        r = rng.random()
+        if r < 0.25:
+            out.append(float(rng.randint(-10**6, 10**6)) * 360.0)
+        elif r < 0.5:
+            out.append(rng.uniform(-1, 1) * 10 ** rng.uniform(-3, 15))
+        elif r < 0.7:
+            out.append(rng.uniform(-720, 720))
+        elif r < 0.85:
+            out.append(rng.randint(-10**15, 10**15))
+        else:
+            out.append(_nudge(360.0 * rng.randint(-5, 5), rng.randint(-3, 3)))
+    return out[:n]
+
+
+def _new_event(form, ctor, exact, ins, **extra):
+    ev = {"k": "new", "form": form, "xin": fx(exact) if exact is not None else fx(0), "ins": ins,
+          "d": fx(0), "m": fx(0), "s": fx(0), "sg4": 1}
+    ev.update(extra)
+    try:
+        a = ctor()
+        v = a()
+        ev["v"], ev["vs"], ev["oc"], ev["obs"] = fx(v), _sg(v), "ok", v
+    except Exception as ex:
+        ev["v"], ev["vs"], ev["oc"] = fx(0), 0, _oc(ex)
+    return ev
+
+
+def gen_new(seed, n, shard):
+    from pymeeus.Angle import Angle
+    rng = random.Random("new/%s/%s" % (seed, shard))
+    for x in _float_inputs(rng, n):
+        ex = Fraction(x)
+        ins = _sg(x)
+        form = rng.choice(["args", "tuple1", "list1"])
+        if form == "args":
+            yield _new_event("deg", lambda: Angle(x), ex, ins, inp=float(x), via=form)
+        elif form == "tuple1":
+            yield _new_event("deg", lambda: Angle((x,)), ex, ins, inp=float(x), via=form)
+        else:
+            yield _new_event("deg", lambda: Angle([x]), ex, ins, inp=float(x), via=form)
+        # the same number as radians and as hours of right ascension (smaller magnitudes)
+        xr = x if abs(x) < 1e13 else x / 1e3
+        if isinstance(xr, float) or isinstance(xr, int):
+            exr = Fraction(xr) * 180 / PI50
+            yield _new_event("rad", lambda: Angle(xr, radians=True), exr, _sg(xr), inp=float(xr), via="radians")
+            exh = Fraction(xr) * 15
+            yield _new_event("ra", lambda: Angle(xr, ra=True), exh, _sg(xr), inp=float(xr), via="ra")
+    # sexagesimal pieces
+    for _ in range(n):
+        d = rng.choice([0, 0.0, rng.randint(0, 800), rng.uniform(0, 720), rng.randint(0, 359)])
+        m = rng.choice([0, rng.randint(0, 59), rng.uniform(0, 60), rng.uniform(0, 600), 60, 59.99999999999999, rng.randint(60, 100000)])
+        s = rng.choice([0, 0.0, rng.uniform(0, 60), rng.uniform(0, 5000), 60.0, 59.99999999999999, 3600, rng.randint(0, 10**6)])
+        neg = rng.randrange(8)          # which pieces carry a minus sign
+        if neg & 1:
+            d = -d
+        if neg & 2 and rng.random() < 0.5:
+            m = -m
+        if neg & 4 and rng.random() < 0.3:
+            s = -s
+        pieces = {"d": fx(d), "m": fx(m), "s": fx(s)}
+        anyneg = (d < 0) or (m < 0) or (s < 0)
+        anynz = (d != 0) or (m != 0) or (s != 0)
+        ins = (-1 if anyneg else 1) if anynz else 0
+        form = rng.choice(["a2", "a3", "a4", "t2", "t3", "t4", "l3"])
+        sg4 = 1
+        if form in ("a2", "t2"):
+            s = 0
+            pieces["s"] = fx(0)
+            anyneg = (d < 0) or (m < 0)
+            anynz = (d != 0) or (m != 0)
+            ins = (-1 if anyneg else 1) if anynz else 0
+        if form in ("a4", "t4"):
+            sg4 = rng.choice([1, -1, 1.0, -1.0])
+            if sg4 < 0 and anynz:
+                ins = -1
+        ctor = {"a2": lambda: Angle(d, m), "a3": lambda: Angle(d, m, s), "a4": lambda: Angle(d, m, s, sg4),
+                "t2": lambda: Angle((d, m)), "t3": lambda: Angle((d, m, s)), "t4": lambda: Angle((d, m, s, sg4)),
+                "l3": lambda: Angle([d, m, s])}[form]
+        yield _new_event("dms", ctor, None, ins, via=form, sg4=int(sg4), inp=[float(d), float(m), float(s)], **pieces)
+
+
+GRID = [0, 1, -1, 0.5, -0.5, 0.0625, 90, -90, 180, -180, 270, 359.5, -359.5, 359.9375, -359.9375, 12.25, -45.75, 300, -300, 7]
+
+
+def _operands(rng):
+    from pymeeus.Angle import Angle
+    r = rng.random()
+    if r < 0.5:
+        v = rng.choice(GRID)
+    elif r < 0.8:
+        v = rng.uniform(-360, 360)
+    else:
+        v = rng.uniform(-1, 1) * 10 ** rng.uniform(-6, 2)
+    kind = rng.choice("AAIF")
+    if kind == "A":
+        if not (-360 < v < 360):
+            v = v % 360
+        return "A", Angle(v)
+    if kind == "I":
+        return "I", int(v)
+    return "F", float(v)
+
+
+def _val(o):
+    from pymeeus.Angle import Angle
+    return o._deg if isinstance(o, Angle) else o
+
+
+def gen_ops(seed, n, shard):
+    import operator
+    from pymeeus.Angle import Angle
+    rng = random.Random("ops/%s/%s" % (seed, shard))
+    BIN = {"add": operator.add, "sub": operator.sub, "mul": operator.mul, "div": operator.truediv,
+           "mod": operator.mod, "pow": operator.pow}
+    INP = {"iadd": operator.iadd, "isub": operator.isub, "imul": operator.imul, "idiv": operator.itruediv,
+           "imod": operator.imod, "ipow": operator.ipow}
+    names = list(BIN) + list(INP) + ["radd", "rsub", "rmul", "rdiv", "rmod", "rpow", "neg", "abs"]
+    cnt = 0
+    while cnt < n:
+        op = rng.choice(names)
+        ak, a = _operands(rng)
+        if ak != "A":
+            a = Angle(a)
+        bk, b = _operands(rng)
+        base = op.lstrip("ir") if op not in ("radd", "rsub", "rmul", "rdiv", "rmod", "rpow") else op[1:]
+        if op in ("iadd", "isub", "imul", "idiv", "imod", "ipow"):
+            base = op[1:]
+        refl = op in ("radd", "rsub", "rmul", "rdiv", "rmod", "rpow")
+        if refl and bk == "A":
+            bk, b = "F", float(b._deg)          # reflected forms need a plain number on the left
+        if rng.random() < 0.08 and base in ("div", "mod"):
+            # divisor exactly zero
+            if refl:
+                a = Angle(0.0)
+            else:
+                b = rng.choice([0, 0.0, Angle(0.0)])
+                bk = "A" if isinstance(b, Angle) else ("I" if isinstance(b, int) else "F")
+        n_exp = -1
+        if base == "pow":
+            n_exp = rng.randint(0, 4)
+            if refl:
+                a = Angle(float(n_exp))           # exponent is the Angle's value
+                if abs(b) > 30:
+                    b = b % 30
+            else:
+                b = rng.choice([n_exp, float(n_exp), Angle(float(n_exp))])
+                bk = "A" if isinstance(b, Angle) else ("I" if isinstance(b, int) else "F")
+                if abs(a._deg) > 30:
+                    a = Angle(a._deg % 30)
+        # mathematical operands
+        x, y = (_val(b), a._deg) if refl else (a._deg, _val(b))
+        if base == "mod" and not (y > 0 or y == 0):
+            continue
+        if base in ("div", "mod") and y != 0 and abs(y) < 1e-3:
+            continue
+        if base == "mod" and y != 0 and Fraction(y) != Fraction(fx(y)["s"] * sum(l * 10000 ** i for i, l in enumerate(fx(y)["d"])), 10 ** 16):
+            continue            # modulus must be transported exactly
+        if base == "mul" and abs(x * y) > 1e12:
+            continue
+        before = (_state(a), _state(b) if isinstance(b, Angle) else repr(b))
+        alias = a
+        ev = {"k": "op", "op": op, "ak": "A", "bk": bk, "x": fx(x), "y": fx(y), "yz": 1 if y == 0 else 0,
+              "n": n_exp, "q": fx(0), "xf": float(x), "yf": float(y)}
+        try:
+            if op in BIN:
+                res = BIN[op](a, b)
+            elif op in INP:
+                c = a
+                c = INP[op](c, b)
+                res = c
+            elif refl:
+                res = BIN[base](b, a)
+            elif op == "neg":
+                res = -a
+                ev["y"] = fx(0)
+            else:
+                res = abs(a)
+                ev["y"] = fx(0)
+            ev["oc"] = "ok"
+            ev["rty"] = 1 if isinstance(res, Angle) else 0
+            rv = res._deg if isinstance(res, Angle) else float("nan")
+            ev["r"], ev["rs"], ev["rf"] = fx(rv), _sg(rv), rv
+        except Exception as ex:
+            ev["oc"], ev["rty"], ev["r"], ev["rs"] = _oc(ex), 0, fx(0), 0
+        after = (_state(alias), _state(b) if isinstance(b, Angle) else repr(b))
+        ev["same"] = 1 if before == after else 0
+        if base == "div" and y != 0:
+            ev["q"] = fx(Fraction(x) / Fraction(y))
+        if base == "mod" and y > 0:
+            fq = abs(Fraction(x)) / Fraction(y)
+            ev["q"] = fx(fq.numerator // fq.denominator)
+        cnt += 1
+        yield ev
+    # to_positive and the views
+    for x in _float_inputs(rng, max(50, n // 10)) + [-1e-20, -1e-17, -5e-324, -359.99999999999994, -360.0 + 1e-13]:
+        a = Angle(x)
+        v0 = a._deg
+        r = a.to_positive()
+        yield {"k": "pos", "x": fx(v0), "xf": v0, "r": fx(a._deg), "rs": _sg(a._deg), "rf": a._deg, "self": 1 if r is a else 0}
+        b = Angle(x)
+        yield {"k": "view", "v": fx(b._deg), "rad": fx(b.rad()), "ra": fx(b.get_ra()), "xf": b._deg}
